@@ -111,11 +111,6 @@ def noTextL : List Val → Bool
   | x :: t => noText x && noTextL t
 end
 
-/-- guard: no range with two equal stated bounds -/
-def Sl.ok : Sl → Bool
-  | .rng (some a) (some b) => a != b
-  | _ => true
-
 theorem noTextL_mem {l : List Val} (h : noTextL l = true) : ∀ x ∈ l, noText x = true := by
   induction l with
   | nil => intro x hx; cases hx
@@ -138,6 +133,32 @@ theorem mem_pySlice {α : Type} {l : List α} {a b : Option Nat} {x : α} (h : x
   unfold pySlice at h
   exact List.mem_of_mem_take (List.mem_of_mem_drop h)
 
+/-- on values without text the code's `slice_value` IS numpy/Python slicing -/
+theorem slice_python_eq (ss : List Sl) (v : Val) (ht : noText v = true) :
+    sliceValue ss v = specSlice ss v := by
+  induction ss generalizing v with
+  | nil => simp [sliceValue, specSlice]
+  | cons s rest ih =>
+    cases v with
+    | num q => cases s <;> simp [sliceValue, specSlice]
+    | bool b => cases s <;> simp [sliceValue, specSlice]
+    | str t => simp [noText] at ht
+    | arr l =>
+      have hl : ∀ x ∈ l, noText x = true := noTextL_mem (by simpa [noText] using ht)
+      cases s with
+      | idx n =>
+        simp only [sliceValue, specSlice]
+        cases hx : l[n]? with
+        | none => rfl
+        | some x => exact ih x (hl x (List.mem_of_getElem? hx))
+      | rng a b =>
+        cases rest with
+        | nil => simp [sliceValue, specSlice]
+        | cons s2 rest2 =>
+          simp only [sliceValue, specSlice]
+          rw [mapM_congr_opt (fun x => sliceValue (s2 :: rest2) x) (fun x => specSlice (s2 :: rest2) x)
+            (pySlice l a b) (fun x hx => ih x (hl x (mem_pySlice hx)))]
+
 theorem mapM_imp_opt {α β : Type} (f g : α → Option β) (l : List α)
     (h : ∀ x ∈ l, ∀ r, g x = some r → f x = some r) (rs : List β) (hg : l.mapM g = some rs) :
     l.mapM f = some rs := by
@@ -155,64 +176,53 @@ theorem mapM_imp_opt {α β : Type} (f g : α → Option β) (l : List α)
         rw [h a (by simp) r hga, ih (fun x hx => h x (by simp [hx])) rt hgt]
         exact hg
 
-/-- whenever Python/numpy slicing is defined, `slice_value` delivers exactly that -/
-theorem slice_python (ss : List Sl) (v r : Val) (hg : ∀ s ∈ ss, Sl.ok s = true)
-    (ht : noText v = true) (hsp : specSlice ss v = some r) :
-    sliceValue (ss.map Sl.toPair) v = some r := by
+/-- whenever numpy/Python slicing is defined (text included), `slice_value` delivers exactly that -/
+theorem slice_python (ss : List Sl) (v r : Val) (hsp : specSlice ss v = some r) :
+    sliceValue ss v = some r := by
   induction ss generalizing v r with
   | nil => simpa [sliceValue, specSlice] using hsp
   | cons s rest ih =>
-    have hrest : ∀ s ∈ rest, Sl.ok s = true := fun x hx => hg x (by simp [hx])
-    have hs : Sl.ok s = true := hg s (by simp)
     cases v with
     | num q => cases s <;> cases rest <;> simp [specSlice] at hsp
     | bool b => cases s <;> cases rest <;> simp [specSlice] at hsp
-    | str t => simp [noText] at ht
-    | arr l =>
-      have hl : ∀ x ∈ l, noText x = true := noTextL_mem (by simpa [noText] using ht)
+    | str t =>
       cases s with
       | idx n =>
-        simp only [List.map_cons, Sl.toPair, sliceValue, isIndex, if_true]
+        cases rest with
+        | nil =>
+          simp only [specSlice] at hsp
+          simp only [sliceValue]
+          cases hc : t[n]? with
+          | none => simp [hc] at hsp
+          | some c => simpa [hc, sliceValue] using hsp
+        | cons s2 r2 => simp [specSlice] at hsp
+      | rng a b =>
+        cases rest with
+        | nil => simpa [specSlice, sliceValue] using hsp
+        | cons s2 r2 => simp [specSlice] at hsp
+    | arr l =>
+      cases s with
+      | idx n =>
+        simp only [sliceValue]
         simp only [specSlice] at hsp
         cases hx : l[n]? with
         | none => simp [hx] at hsp
         | some x =>
           simp only [hx] at hsp ⊢
-          exact ih x r hrest (hl x (List.mem_of_getElem? hx)) hsp
+          exact ih x r hsp
       | rng a b =>
-        have hidx : isIndex (a, b) = none := by
-          cases a with
-          | none => rfl
-          | some a' =>
-            cases b with
-            | none => rfl
-            | some b' =>
-              have : a' ≠ b' := by simpa [Sl.ok] using hs
-              simp [isIndex, this]
-        have hl' : (if isRange (a, b) = true then pySlice l a b else l) = pySlice l a b := by
-          by_cases hr : isRange (a, b) = true
-          · simp [hr]
-          · have : a = b := by simpa [isRange] using hr
-            subst this
-            cases a with
-            | none => simp [hr, pySlice]
-            | some a' => simp [Sl.ok] at hs
-        simp only [List.map_cons, Sl.toPair, sliceValue, hidx, hl']
         cases rest with
-        | nil => simpa [specSlice] using hsp
+        | nil => simpa [specSlice, sliceValue] using hsp
         | cons s2 rest2 =>
           simp only [specSlice] at hsp
-          simp only [List.map_cons]
+          simp only [sliceValue]
           cases hm : (pySlice l a b).mapM (fun x => specSlice (s2 :: rest2) x) with
           | none => simp [hm] at hsp
           | some rs =>
             simp only [hm, Option.map_some, Option.some.injEq] at hsp
-            have := mapM_imp_opt (fun x => sliceValue (Sl.toPair s2 :: List.map Sl.toPair rest2) x)
+            rw [mapM_imp_opt (fun x => sliceValue (s2 :: rest2) x)
               (fun x => specSlice (s2 :: rest2) x) (pySlice l a b)
-              (fun x hx r' hr' => by
-                have := ih x r' hrest (hl x (mem_pySlice hx)) hr'
-                simpa using this) rs hm
-            rw [this]
+              (fun x _ r' hr' => ih x r' hr') rs hm]
             simp [hsp]
 
 theorem castValue_fields (a b : Node) (v : Val) (h1 : a.kw = b.kw) (h2 : a.dims = b.dims)
@@ -222,7 +232,7 @@ theorem castValue_fields (a b : Node) (v : Val) (h1 : a.kw = b.kw) (h2 : a.dims 
 
 /-! ### frame properties -/
 
-theorem hStep_frame (s : Heap × List Nat) (op : HOp) (n0 : Nat)
+theorem hStep_frame {α : Type} (s : Heap α × List Nat) (op : HOp α) (n0 : Nat)
     (hinv : n0 ≤ s.1.length ∧ ∀ a ∈ s.2, n0 ≤ a) :
     (n0 ≤ (hStep s op).1.length ∧ ∀ a ∈ (hStep s op).2, n0 ≤ a) ∧
     ∀ a, a < n0 → (hStep s op).1[a]? = s.1[a]? := by
@@ -245,9 +255,9 @@ theorem hStep_frame (s : Heap × List Nat) (op : HOp) (n0 : Nat)
       | inr h => rw [h]; exact hinv.1
     · rw [List.getElem?_append_left (by omega)]
 
-theorem frame (h : Heap) (base : List Nat) (ops : List HOp) :
+theorem frame {α : Type} (h : Heap α) (base : List Nat) (ops : List (HOp α)) :
     ∀ a, a < h.length → (ops.foldl hStep (deepCopy h base)).1[a]? = h[a]? := by
-  have key : ∀ (ops : List HOp) (s : Heap × List Nat),
+  have key : ∀ (ops : List (HOp α)) (s : Heap α × List Nat),
       (h.length ≤ s.1.length ∧ ∀ a ∈ s.2, h.length ≤ a) →
       (∀ a, a < h.length → s.1[a]? = h[a]?) →
       ∀ a, a < h.length → (ops.foldl hStep s).1[a]? = h[a]? := by
@@ -265,6 +275,36 @@ theorem frame (h : Heap) (base : List Nat) (ops : List HOp) :
   · intro a ha
     simp only [deepCopy]
     rw [List.getElem?_append_left ha]
+
+theorem filterMap_all_some {α β : Type} (f : α → Option β) (l : List α)
+    (h : ∀ a ∈ l, (f a).isSome = true) :
+    (l.filterMap f).length = l.length ∧ ∀ i : Nat, (l.filterMap f)[i]? = (l[i]?).bind f := by
+  induction l with
+  | nil => simp
+  | cons a t ih =>
+    obtain ⟨b, hb⟩ := Option.isSome_iff_exists.mp (h a (by simp))
+    obtain ⟨hl, hg⟩ := ih (fun x hx => h x (by simp [hx]))
+    simp only [List.filterMap_cons, hb]
+    refine ⟨by simp [hl], fun i => ?_⟩
+    cases i with
+    | zero => simp [hb]
+    | succ i => simpa using hg i
+
+/-- the deep copy's i-th object is a fresh object equal to the original's i-th object -/
+theorem deepCopy_get {α : Type} (h : Heap α) (addrs : List Nat) (hv : ∀ a ∈ addrs, a < h.length)
+    (i : Nat) (hi : i < addrs.length) :
+    (deepCopy h addrs).2[i]? = some (h.length + i) ∧
+    (deepCopy h addrs).1[h.length + i]? = h[addrs[i]]? := by
+  have hs : ∀ a ∈ addrs, (h[a]?).isSome = true := fun a ha => by
+    simp [List.getElem?_eq_getElem (hv a ha)]
+  obtain ⟨hl, hg⟩ := filterMap_all_some (fun a => h[a]?) addrs hs
+  simp only [deepCopy]
+  refine ⟨?_, ?_⟩
+  · rw [List.getElem?_range' ] <;> simp [hl, hi]
+  · rw [List.getElem?_append_right (by omega)]
+    simp only [Nat.add_sub_cancel_left]
+    rw [hg i, List.getElem?_eq_getElem hi]
+    simp [List.getElem?_eq_getElem (hv addrs[i] (List.getElem_mem hi))]
 
 theorem processNode_frame (tbl : UnitTable) (env env' : Env) (n : Node)
     (h : processNode tbl env n = .ok env') :
